@@ -242,12 +242,18 @@ def is_shared(prog, lam_fn, var_id):
     return False
 
 
-def induction_vars(lam_fn):
+def induction_vars(lam_fn, call=None):
     """variables initialised from <range param>.begin() in the task body"""
     if not lam_fn.param_ids:
         return set(), None
     r = lam_fn.param_ids[0]
     ivs = set()
+    # index form  parallel_for(first, last, [](Index i) {...}):  the integral parameter is the (per-task distinct) index itself
+    pt = lam_fn.prog.base_type(lam_fn.prog.vars[r].get('ty')) or {}
+    index_form = call is not None and call.callee and call.callee['name'] == 'parallel_for' and len(call.args()) >= 3 and \
+        all(((a.strip_all().type or {}).get('int') or (lam_fn.prog.base_type(a.strip_all().j.get('t')) or {}).get('int')) for a in call.args()[:2])
+    if pt.get('int') and not pt.get('bool') and index_form:
+        ivs.add(r)
     for d in lam_fn.walk():
         if d.k == 'VarDecl' and d.c:
             ini = d.c[0].strip_all()
